@@ -7,14 +7,14 @@ C13 — model of the command tokenizer:
     decoder → latin-1 encode → strict utf-8 decode (each failure branch as in the code)
   * `utils.str.dqrepr` (CPython's `unicode_escape` encoder + `replace('"', '\\"')`)   (src/utils/str.py:181-188)
 
-Python exceptions are constructors of `PR`.  `\N{name}` escapes need the Unicode name table and are
-outside the model: the decoder stops with `outside`.  CPython's recursion limit is not modelled
+Python exceptions are constructors of `PR`.  `\N{name}` escapes are decoded through a parameter
+`names` (the Unicode name table as the codec sees it: a partial map from the bytes between the
+braces to a code point).  CPython's recursion limit is not modelled
 (the model recurses on a fuel that is proved sufficient in `Props.lean`).
-Input strings with lone surrogates are outside the model's input type (`List Char`).  *Tokens* may
-contain them: the escapes `\ud800`…`\udfff` inside quotes decode to a Python `str` holding a lone
-surrogate, which the latin-1/utf-8 step cannot re-read and `_handleToken` returns as it is (a `str`
-that cannot be encoded — known finding C13-surrogate-escape-token).  Tokens are therefore lists of
-code points (`List Nat`), not `Str`; the model reproduces those tokens exactly.
+Input strings with lone surrogates are outside the model's input type (`List Char`).  Inside the
+model tokens are lists of code points (`List Nat`): an escape such as `\ud800` decodes to a lone
+surrogate, which `_handleToken` rejects (since fix d2d591c: `token.encode('utf8')` raises
+UnicodeEncodeError, a ValueError, reported as a syntax error).
 -/
 import LimnoriaModel.Py.Basic
 import LimnoriaModel.Gen.Tokenizer
@@ -31,6 +31,9 @@ inductive VErr where
   | truncatedU              -- truncated \uXXXX escape
   | truncatedBigU           -- truncated \UXXXXXXXX escape
   | illegalUnicode          -- illegal Unicode character (\U beyond 10FFFF)
+  | malformedN              -- malformed \N character escape
+  | unknownName             -- unknown Unicode character name
+  | surrogate               -- UnicodeEncodeError: surrogates not allowed (token.encode('utf8'))
 deriving DecidableEq, Repr
 
 /-- `SyntaxError`s raised by the Tokenizer itself -/
@@ -49,7 +52,6 @@ inductive PR (α : Type) where
   | ok (a : α)
   | valueError (e : VErr)
   | syntaxError (e : SErr)
-  | outside                 -- a `\N{…}` escape was met: outside the model
   | crash (c : Crash)
 deriving Repr
 
@@ -57,7 +59,6 @@ def PR.cast {α β : Type} : PR α → PR β
   | .ok _ => .crash .fuel      -- never used on `ok`
   | .valueError e => .valueError e
   | .syntaxError e => .syntaxError e
-  | .outside => .outside
   | .crash c => .crash c
 
 def PR.bind {α β : Type} (x : PR α) (f : α → PR β) : PR β :=
@@ -65,7 +66,6 @@ def PR.bind {α β : Type} (x : PR α) (f : α → PR β) : PR β :=
   | .ok a => f a
   | .valueError e => .valueError e
   | .syntaxError e => .syntaxError e
-  | .outside => .outside
   | .crash c => .crash c
 
 /-- what the tokenizer returns: nested lists of tokens; a token is a list of code points -/
@@ -143,10 +143,7 @@ def utf8 (s : Str) : List UInt8 := s.flatMap String.utf8EncodeChar
 /-- `bytes.decode()` (strict UTF-8); `none` = UnicodeDecodeError -/
 def utf8Decode? (bs : List UInt8) : Option Str := bs.toByteArray.utf8Decode?.map Array.toList
 
-inductive UErr where
-  | verr (e : VErr)
-  | named                     -- `\N`: outside the model
-deriving DecidableEq, Repr
+abbrev UErr := VErr
 
 def isOct (b : UInt8) : Bool := 0x30 ≤ b && b ≤ 0x37
 def octVal (b : UInt8) : Nat := b.toNat - 0x30
@@ -176,43 +173,58 @@ inductive Mode where
   | esc                                       -- just after a backslash
   | oct (more : Bool) (v : Nat)               -- after 1 (`more`) or 2 octal digits
   | hex (left : Nat) (v : Nat) (k : HexKind)  -- `left + 1` hex digits still required
+  | nameStart                                 -- just after `\N`: a `{` must follow
+  | name (acc : List UInt8)                   -- inside `\N{`: bytes of the name so far
 
 def consR (v : Nat) : Except UErr (List Nat) → Except UErr (List Nat)
   | .ok l => .ok (v :: l)
   | .error e => .error e
 
+/-- the Unicode name table as the codec's `\N{…}` escape sees it: name bytes ↦ code point -/
+abbrev Names := List UInt8 → Option Nat
+
 /-- CPython `_PyUnicode_DecodeUnicodeEscapeInternal` (errors='strict', final=True), one byte per step.
 Bytes that are not part of an escape are taken as code points (Latin-1 reading). -/
-def uesc : Mode → List UInt8 → Except UErr (List Nat)
+def uesc (names : Names) : Mode → List UInt8 → Except UErr (List Nat)
   | .normal, [] => .ok []
-  | .esc, [] => .error (.verr .backslashAtEnd)
+  | .esc, [] => .error .backslashAtEnd
   | .oct _ v, [] => .ok [v]
-  | .hex _ _ k, [] => .error (.verr k.err)
-  | .normal, b :: bs => if b = 0x5C then uesc .esc bs else consR b.toNat (uesc .normal bs)
+  | .hex _ _ k, [] => .error k.err
+  | .nameStart, [] => .error .malformedN
+  | .name _, [] => .error .malformedN
+  | .normal, b :: bs => if b = 0x5C then uesc names .esc bs else consR b.toNat (uesc names .normal bs)
   | .esc, b :: bs =>
-    if b = 0x0A then uesc .normal bs                                   -- backslash-newline: nothing
+    if b = 0x0A then uesc names .normal bs                             -- backslash-newline: nothing
     else match simpleEsc b with
-      | some v => consR v (uesc .normal bs)
+      | some v => consR v (uesc names .normal bs)
       | none =>
-        if isOct b then uesc (.oct true (octVal b)) bs
-        else if b = 0x78 then uesc (.hex 1 0 .x) bs
-        else if b = 0x75 then uesc (.hex 3 0 .u) bs
-        else if b = 0x55 then uesc (.hex 7 0 .bigU) bs
-        else if b = 0x4E then .error .named
-        else consR 0x5C (consR b.toNat (uesc .normal bs))              -- unknown escape: kept
+        if isOct b then uesc names (.oct true (octVal b)) bs
+        else if b = 0x78 then uesc names (.hex 1 0 .x) bs
+        else if b = 0x75 then uesc names (.hex 3 0 .u) bs
+        else if b = 0x55 then uesc names (.hex 7 0 .bigU) bs
+        else if b = 0x4E then uesc names .nameStart bs
+        else consR 0x5C (consR b.toNat (uesc names .normal bs))        -- unknown escape: kept
   | .oct more v, b :: bs =>
     if isOct b then
-      (if more then uesc (.oct false (v * 8 + octVal b)) bs
-       else consR (v * 8 + octVal b) (uesc .normal bs))
-    else consR v (if b = 0x5C then uesc .esc bs else consR b.toNat (uesc .normal bs))
+      (if more then uesc names (.oct false (v * 8 + octVal b)) bs
+       else consR (v * 8 + octVal b) (uesc names .normal bs))
+    else consR v (if b = 0x5C then uesc names .esc bs else consR b.toNat (uesc names .normal bs))
   | .hex left v k, b :: bs =>
     match hexVal? b with
-    | none => .error (.verr k.err)
+    | none => .error k.err
     | some d =>
       match left with
-      | 0 => if v * 16 + d > 0x10FFFF then .error (.verr .illegalUnicode)
-             else consR (v * 16 + d) (uesc .normal bs)
-      | l + 1 => uesc (.hex l (v * 16 + d) k) bs
+      | 0 => if v * 16 + d > 0x10FFFF then .error .illegalUnicode
+             else consR (v * 16 + d) (uesc names .normal bs)
+      | l + 1 => uesc names (.hex l (v * 16 + d) k) bs
+  | .nameStart, b :: bs => if b = 0x7B then uesc names (.name []) bs else .error .malformedN
+  | .name acc, b :: bs =>
+    if b = 0x7D then
+      (if acc.isEmpty then .error .malformedN
+       else match names acc with
+         | some v => consR v (uesc names .normal bs)
+         | none => .error .unknownName)
+    else uesc names (.name (acc ++ [b])) bs
 
 /-- `str.encode('iso-8859-1')`; `none` = UnicodeEncodeError -/
 def latin1? : List Nat → Option (List UInt8)
@@ -221,24 +233,30 @@ def latin1? : List Nat → Option (List UInt8)
 
 def toCps (s : Str) : List Nat := s.map Char.toNat
 
+/-- a Unicode scalar value (what `str.encode('utf8')` accepts) -/
+def isScalar (n : Nat) : Bool := n < 0xD800 || (0xE000 ≤ n && n < 0x110000)
+
+/-- `token.encode('utf8')` at the end of the chain: UnicodeEncodeError on a lone surrogate -/
+def checkScalar (cps : List Nat) : PR (List Nat) :=
+  if cps.all isScalar then .ok cps else .valueError .surrogate
+
 /-- the body of `if token[0] == token[-1] and token[0] in self.quotes` after `token = token[1:-1]` -/
-def decodeQuoted (content : Str) : PR (List Nat) :=
-  match uesc .normal (utf8 content) with
-  | .error (.verr e) => .valueError e
-  | .error .named => .outside
+def decodeQuoted (names : Names) (content : Str) : PR (List Nat) :=
+  match uesc names .normal (utf8 content) with
+  | .error e => .valueError e
   | .ok cps =>
     match latin1? cps with
-    | none => .ok cps                           -- `except: pass`
+    | none => checkScalar cps                   -- `except: pass`
     | some bs =>
       match utf8Decode? bs with
-      | none => .ok cps                         -- `except: pass`
+      | none => checkScalar cps                 -- `except: pass`
       | some s => .ok (toCps s)
 
 /-- `Tokenizer._handleToken` -/
-def handleToken (quotes : Str) (token : Str) : PR (List Nat) :=
+def handleToken (names : Names) (quotes : Str) (token : Str) : PR (List Nat) :=
   match token.head?, token.getLast? with
   | some a, some b =>
-    if a = b ∧ a ∈ quotes then decodeQuoted (token.drop 1).dropLast
+    if a = b ∧ a ∈ quotes then decodeQuoted names (token.drop 1).dropLast
     else .ok (toCps token)
   | _, _ => .crash .indexError
 
@@ -250,15 +268,16 @@ structure TokCfg where
   right : Str
   pipe : Bool
   quotes : Str
+  names : Names := fun _ => none      -- not a field of the Python object: the codec's name table
 
 /-- `Tokenizer.__init__` -/
-def mkTokenizer (brackets : Str) (pipe : Bool) (quotes : Str) : Except Crash TokCfg :=
+def mkTokenizer (brackets : Str) (pipe : Bool) (quotes : Str) (names : Names := fun _ => none) : Except Crash TokCfg :=
   let base := Gen.tokenizerSeparators
   let seps (s : Str) : Str := (if pipe then s ++ ['|'] else s) ++ quotes
   match brackets with
-  | [] => .ok ⟨seps base, [], [], pipe, quotes⟩
+  | [] => .ok ⟨seps base, [], [], pipe, quotes, names⟩
   | [_] => .error .indexError                                      -- brackets[1]
-  | l :: r :: _ => .ok ⟨seps (base ++ brackets), [l], [r], pipe, quotes⟩
+  | l :: r :: _ => .ok ⟨seps (base ++ brackets), [l], [r], pipe, quotes, names⟩
 
 def TokCfg.lexCfg (T : TokCfg) : LexCfg := ⟨Gen.shlexWhitespace, T.separators, T.quotes⟩
 
@@ -279,7 +298,7 @@ def insideBrackets (T : TokCfg) : Nat → Lexer → PR (List Tree × Lexer)
         (insideBrackets T n lx').bind fun (sub, lx'') =>
           (insideBrackets T n lx'').bind fun (rest, lx3) => .ok (.node sub :: rest, lx3)
       else
-        (handleToken T.quotes token).bind fun t =>
+        (handleToken T.names T.quotes token).bind fun t =>
           (insideBrackets T n lx').bind fun (rest, lx'') => .ok (.leaf t :: rest, lx'')
     | r => rtCast r
 
@@ -296,7 +315,7 @@ def topLoop (T : TokCfg) : Nat → Lexer → List Tree → List (List Tree) → 
         (insideBrackets T n lx').bind fun (sub, lx'') => topLoop T n lx'' (args ++ [.node sub]) ends
       else if token = T.right then .syntaxError .spuriousRight
       else
-        (handleToken T.quotes token).bind fun t => topLoop T n lx' (args ++ [.leaf t]) ends
+        (handleToken T.names T.quotes token).bind fun t => topLoop T n lx' (args ++ [.leaf t]) ends
     | r => rtCast r
 
 /-- the `if ends:` epilogue: `args.append(ends.pop()); while ends: args[-1].append(ends.pop())` -/
@@ -323,6 +342,7 @@ structure Conf where
   brackets : Str
   pipeSyntax : Bool
   quotes : Str
+  names : Names := fun _ => none
 
 inductive SynKind where
   | value (e : VErr)       -- SyntaxError(str(ValueError))
@@ -332,7 +352,6 @@ deriving DecidableEq, Repr
 inductive Result where
   | tree (ts : List Tree)
   | syntaxError (k : SynKind)
-  | outside
   | crash (c : Crash)
 deriving Repr
 
@@ -340,15 +359,14 @@ def effBrackets (c : Conf) : Str := if c.nested then c.brackets else []
 def effPipe (c : Conf) : Bool := c.nested && c.pipeSyntax
 
 def tokenize (c : Conf) (s : Str) : Result :=
-  match mkTokenizer (effBrackets c) (effPipe c) c.quotes with
+  match mkTokenizer (effBrackets c) (effPipe c) c.quotes c.names with
   | .error cr => .crash cr
   | .ok T =>
     match tokenizeT T s with
     | .ok ts => .tree ts
     | .valueError e => .syntaxError (.value e)
     | .syntaxError e => .syntaxError (.syn e)
-    | .outside => .outside
-    | .crash cr => .crash cr
+      | .crash cr => .crash cr
 
 /-! ## writers: manual quoting and `utils.str.dqrepr` -/
 
@@ -365,16 +383,16 @@ def hexN : Nat → Nat → Str
   | 0, _ => []
   | k + 1, n => hexN k (n / 16) ++ [hexDigit (n % 16)]
 
-/-- CPython's `unicode_escape` encoder, one character -/
+/-- one character of `dqrepr` before the quote replacement (since fix 2552894): CPython's
+`unicode_escape` encoder for ASCII, anything else as it is -/
 def uescEncodeChar (c : Char) : Str :=
   let n := c.toNat
-  if n ≥ 0x10000 then '\\' :: 'U' :: hexN 8 n
-  else if n ≥ 0x100 then '\\' :: 'u' :: hexN 4 n
+  if n ≥ 0x80 then [c]
   else if c = '\t' then ['\\', 't']
   else if c = '\n' then ['\\', 'n']
   else if c = '\r' then ['\\', 'r']
   else if c = '\\' then ['\\', '\\']
-  else if n < 0x20 ∨ n ≥ 0x7f then '\\' :: 'x' :: hexN 2 n
+  else if n < 0x20 ∨ n = 0x7f then '\\' :: 'x' :: hexN 2 n
   else [c]
 
 /-- `s.replace('"', '\\"')` -/
